@@ -80,7 +80,7 @@ func TestVerifC27(t *testing.T) {
 	defer c.Done(t)
 	c.Rule("A case = (snap configuration from an enumerated pool of 108: 3 names x {no key, 2 instance keys} x 6 app sets incl. prefix chains, app==snap, no apps x 2 revisions; " +
 		"installed file name; desktop file content = one of 4 valid templates, possibly without its [Desktop Entry] header or empty, with 0-9 line-wise mutations drawn from " +
-		"38 operators (Exec / key / locale / header / Icon / ${SNAP} / control-character / encoding / >64KiB-line families), LF/CRLF/CR/LFCR line ends, optional missing final newline). " +
+		"34 line operators (Exec / key / locale / header / Icon / ${SNAP} / control-character / encoding / >64KiB-line families), LF/CRLF/CR/LFCR line ends, optional missing final newline). " +
 		"Non-trivial = at least one hostile or malformed operator was applied and the sanitizer still produced output; distinct = different (operator set, instance key?, mode).")
 	c.Assume("Allowlist of keys/headers: the 22 keys, 4 localizable keys and 3 header forms snapd documents as allowed in wrappers/desktop.go, copied once into literal lists of the reader (plus the X-SnapInstanceName tag snapd adds).")
 	c.Assume("A line is what lies between '\\n' bytes (desktop-entry spec / GKeyFile); a '\\r' or NUL inside a line is part of that line's value.")
